@@ -168,6 +168,9 @@ func domSetHash(r *engine.Run, rule string) {
 	good := st != nil
 	if good {
 		for _, ret := range engine.Returns(f) {
+			if ret.Block().Comment == "recover" {
+				continue
+			}
 			if !engine.InstrDominates(st, ret) {
 				good = false
 			}
@@ -709,4 +712,120 @@ func refCallerLeaves(r *engine.Run, rule string) {
 		}
 	})
 	r.Check(bad == "", rule, fn(f)+"|argument not kept", r.P.Pos(f.Pos()), "no field is assigned the argument slice", "ComputeTree keeps the caller's leaf slice in the tree ("+bad+"): the tree's answers change with what the caller does to its slice afterwards (a lookup by leaf finds a moved leaf at its new position, whose path belongs to another leaf)")
+}
+
+// retPairMPT: the recursive insert/delete helpers of the state trie return the
+// node that now stands at the position together with its key, and the caller
+// decides by the KIND of that node how to rebuild itself (an extension above a
+// leaf becomes a leaf, above a branch it keeps its kind and takes the key).
+// Every success return therefore hands back a pair that belongs together: both
+// results of one call of another helper, (nil, nil), or a node with its own
+// GetHashBytes(). A node from one source with the key from another makes the
+// parent rebuild itself around a node that is not the one stored under the key.
+func retPairMPT(r *engine.Run, rule string) {
+	n := 0
+	insertNodeFn := r.Fn(rule, pkgUtil, "MerklePatriciaTrie", "insertNode")
+	for _, f := range funcsOfPkg(r, pkgUtil) {
+		if f.Parent() != nil || len(f.Blocks) == 0 || recvNamed(f) != "MerklePatriciaTrie" {
+			continue
+		}
+		res := f.Signature.Results()
+		if res.Len() != 3 || !isNamed(res.At(0).Type(), pkgUtil, "Node") || !isNamed(res.At(1).Type(), pkgUtil, "Key") || res.At(2).Type().String() != "error" {
+			continue
+		}
+		o := ord{}
+		for _, ret := range engine.Returns(f) {
+			if len(ret.Results) != 3 {
+				continue
+			}
+			nd, key, ev := resultValue(ret, 0), resultValue(ret, 1), resultValue(ret, 2)
+			if ev == nil || !nilConst(ev) {
+				// an error return, or the error of the very call that produced the pair
+				if ex, ok := ev.(*ssa.Extract); !ok || ex.Index != 2 {
+					continue
+				}
+			}
+			n++
+			good, why := false, ""
+			exN, okN := nd.(*ssa.Extract)
+			exK, okK := key.(*ssa.Extract)
+			switch {
+			case nilConst(nd) && nilConst(key):
+				good, why = true, "nothing stands here any more"
+			case okN && okK && exN.Tuple == exK.Tuple && exN.Index == 0 && exK.Index == 1:
+				good, why = true, "both results of one helper call"
+			default:
+				// the node handed to insertNode with the key insertNode returned for it
+				if okK && exK.Index == 1 {
+					if c, ok := exK.Tuple.(*ssa.Call); ok && insertNodeFn != nil && c.Call.StaticCallee() == insertNodeFn && len(c.Call.Args) == 3 && through(c.Call.Args[2]) == through(nd) {
+						good, why = true, "the node stored by insertNode with the key insertNode returned"
+					}
+				}
+				// a node with its own hash
+				if c, ok := stripCT(key).(*ssa.Call); ok {
+					if recv, ok := engine.IsMethodCall(c, "GetHashBytes"); ok && (recv == nd || through(recv) == through(nd)) {
+						good, why = true, "the node with its own hash"
+					}
+				}
+			}
+			r.Check(good, rule, o.next(fn(f)+"|return"), r.P.Pos(ret.Pos()), why,
+				"a trie helper returns a node together with a key that does not come from the same source (node: "+nd.String()+", key: "+key.String()+"): the caller rebuilds itself by the kind of the returned node while linking the returned key, so the parent takes the wrong form for what is stored under that key - another shape, another root, for the same content")
+		}
+	}
+	if n < 20 {
+		r.Anchor(rule, fmt.Errorf("unresolved anchor: %d (node, key) returns in the trie helpers", n))
+	}
+}
+
+// raceCaptured: a function literal that runs concurrently with its siblings - the
+// argument of (*errgroup.Group).Go or the function of a go statement, started
+// inside a loop - keeps its working variables to itself: it stores into no
+// variable captured from the enclosing function. Captured variables are one
+// memory cell shared by all the goroutines the loop starts: a result written
+// there by one goroutine is read (and linked into the trie) by another.
+// Stores THROUGH a captured pointer or into distinct elements are not meant.
+func raceCaptured(r *engine.Run, rule string, rel string, minimum int) {
+	n := 0
+	for _, f := range funcsOfPkg(r, rel) {
+		if len(f.Blocks) == 0 {
+			continue
+		}
+		o := ord{}
+		engine.Instrs(f, func(in ssa.Instruction) {
+			var lit *ssa.MakeClosure
+			switch x := in.(type) {
+			case *ssa.Go:
+				if mc, ok := x.Call.Value.(*ssa.MakeClosure); ok {
+					lit = mc
+				}
+			case *ssa.Call:
+				if extCalleeIs(x, "golang.org/x/sync/errgroup", "Group", "Go") && len(x.Call.Args) == 2 {
+					if mc, ok := x.Call.Args[1].(*ssa.MakeClosure); ok {
+						lit = mc
+					}
+				}
+			}
+			if lit == nil || !inCycle(in.Block()) {
+				return
+			}
+			body, ok := lit.Fn.(*ssa.Function)
+			if !ok {
+				return
+			}
+			n++
+			bad := ""
+			engine.Instrs(body, func(in2 ssa.Instruction) {
+				if st, ok := in2.(*ssa.Store); ok {
+					if fv, ok := st.Addr.(*ssa.FreeVar); ok {
+						bad = fv.Name() + " at " + r.P.Pos(st.Pos())
+					}
+				}
+			})
+			r.Check(bad == "", rule, o.next(fn(f)+"|goroutine body"), r.P.Pos(in.Pos()), "the concurrently running literal stores into no captured variable",
+				"goroutines started in a loop share a variable of the enclosing function ("+bad+"): each stores its result there and reads it back, so one goroutine links the node another one produced (and the race detector fires)")
+		})
+	}
+	if n < minimum {
+		r.Anchor(rule, fmt.Errorf("unresolved anchor: %d goroutine literals started in loops in %s", n, rel))
+	}
 }
